@@ -113,6 +113,19 @@ pub fn run_on<B: Backend>(b: &B, case: &Case, cfg: &CaseCfg) -> Result<RunOutcom
 }
 
 pub fn run_on_mode<B: Backend>(b: &B, case: &Case, cfg: &CaseCfg, prerepair: bool) -> Result<RunOutcome, String> {
+    run_on_from(b, case, cfg, if prerepair { Some(0) } else { None })
+}
+
+/// First query step of the epoch that contains history step `step`.
+pub fn epoch_start(history: &[Step], step: usize) -> usize {
+    let mut i = step.min(history.len().saturating_sub(1));
+    while i > 0 && !matches!(history[i], Step::Session { .. }) {
+        i -= 1;
+    }
+    i
+}
+
+pub fn run_on_from<B: Backend>(b: &B, case: &Case, cfg: &CaseCfg, prerepair: Option<usize>) -> Result<RunOutcome, String> {
     let yf = cfg.yield_every.map_or(YieldFrequency::Never, YieldFrequency::EveryNQuery);
     let rt = if cfg.rt_workers == 0 {
         tokio::runtime::Builder::new_current_thread().enable_all().build()
@@ -157,16 +170,16 @@ pub fn pick_cfg(r: &mut Rng) -> (CaseCfg, BackendSpec) {
 }
 
 /// Run a case; returns the outcome and the RecKv backend used (if any).
-pub fn run_spec(spec: &BackendSpec, case: &Case, cfg: &CaseCfg, prerepair: bool) -> (Result<RunOutcome, String>, Option<RecBackend>) {
+pub fn run_spec(spec: &BackendSpec, case: &Case, cfg: &CaseCfg, prerepair: Option<usize>) -> (Result<RunOutcome, String>, Option<RecBackend>) {
     match spec.rec() {
-        Some(b) => (run_on_mode(&b, case, cfg, prerepair), Some(b)),
-        None => (run_on_mode(&MemBackend, case, cfg, prerepair), None),
+        Some(b) => (run_on_from(&b, case, cfg, prerepair), Some(b)),
+        None => (run_on_from(&MemBackend, case, cfg, prerepair), None),
     }
 }
 
-pub const C03_F1_SIG: &str = "C03/projection-rerun-on-ABA-firewall [a projection is re-executed by backward projection although \
-every dependency has the value it read in its previous run: a firewall below it changed and changed back while the \
-projection was not demanded]";
+pub const C03_F1_SIG: &str = "C03/projection-rerun-by-backward-projection [a projection is re-executed although every dependency has the value it \
+read in its previous run: a firewall/projection below it was re-executed since (or in the same epoch as) that run, and \
+backward projection always recomputes]";
 
 pub const F1_SIG: &str = "C01/stale-value-above-unrepaired-firewall [classifier: the same case passes when the user \
 repairs the transitive firewall callees of every computed node before each query step]";
@@ -199,7 +212,7 @@ pub fn worker(ctx: &WorkerCtx, prop: &str) -> Report {
         let (case, mut r) = make_case(ctx.seed, idx, ctx.tier, false);
         let (cfg, spec) = pick_cfg(&mut r);
         ctx.announce(&format!("{prop} case {idx} cfg={cfg:?} nodes={} steps={}", case.prog.nodes.len(), case.history.len()));
-        let (out, rec) = run_spec(&spec, &case, &cfg, false);
+        let (out, rec) = run_spec(&spec, &case, &cfg, None);
         let out = match out {
             Ok(o) => o,
             Err(e) => {
@@ -243,7 +256,12 @@ pub fn worker(ctx: &WorkerCtx, prop: &str) -> Report {
         if out.oracle.c01_violated {
             // classify: is this the known finding C01-F1?
             rep.count("cases_reclassified_counterfactually", 1);
-            let (cf, _) = run_spec(&spec, &case, &cfg, true);
+            // counterfactual: the user repairs the firewalls below every computed
+            // node at every query step from the epoch of the first violation on
+            // (not earlier: repairing in earlier epochs would also hide defects
+            // in how firewall state is carried from one epoch to the next)
+            let from = epoch_start(&case.history, out.oracle.first_c01_step.unwrap_or(0));
+            let (cf, _) = run_spec(&spec, &case, &cfg, Some(from));
             match cf {
                 Ok(cf) if !cf.oracle.c01_violated => {
                     rep.count("cases_attributed_to_C01-F1", 1);
